@@ -818,6 +818,42 @@ pub fn families(nmax: usize) -> Vec<(String, Vec<Op>)> {
         out.push((format!("big: {} barriers", n), (0..n).flat_map(|i| vec![free(&nm(i)), Op::Barrier]).chain([free("x"), free("y"), Op::Barrier, free("z")]).collect()));
         out.push((format!("big: {} thread-local systems", n), (0..n).map(|_| Op::Tl(SysSpec { name: String::new(), reads: vec![], writes: vec![], time: 3, deps: vec![] })).chain([free("x")]).collect()));
     }
+    // a sink with THREE dependencies whose stages do not follow registration order (a in stage 0, c in stage 1, b in
+    // stage 2, with further stages behind): it belongs right behind the last of them
+    for tail in 0..=3usize {
+        for extra in [false, true] {
+            let mut v = vec![s("a".into(), &[], &[0, 1], 3, vec![]), s("p1".into(), &[], &[0], 3, vec![]), s("b".into(), &[], &[0], 3, vec![])];
+            for i in 0..tail {
+                v.push(s(format!("t{}", i), &[], &[0], 3, vec![]));
+            }
+            v.push(s("c".into(), &[], &[1], 3, vec![]));
+            if extra {
+                v.push(s("e".into(), &[], &[2], 3, vec![]));
+            }
+            let mut deps: Vec<String> = vec!["a".into(), "b".into(), "c".into()];
+            if extra {
+                deps.push("e".into());
+            }
+            v.push(s("sink".into(), &[], &[], 3, deps));
+            out.push((format!("sink-with-dependencies-out-of-stage-order({} stages behind the last dependency{})", tail, if extra { ", a fourth dependency in stage 0" } else { "" }), v));
+        }
+    }
+    // a dependency-free batch (and, for comparison, a plain system) behind a barrier as the 4th..6th group of its stage,
+    // with a roomier stage in front of the barrier
+    for k in 3..=5usize {
+        for plain in [false, true] {
+            let mut v = vec![s("p".into(), &[], &[], 3, vec![]), Op::Barrier];
+            for i in 0..k {
+                v.push(s(format!("q{}", i), &[], &[], 3, vec![]));
+            }
+            if plain {
+                v.push(s("late".into(), &[], &[], 3, vec![]));
+            } else {
+                v.push(Op::Batch(BatchSpec { name: "late".into(), deps: vec![], ctrl: CtrlData::Unit, times: 1, multi: false, fetch_data: false, inner: vec![s("i".into(), &[], &[], 3, vec![])] }));
+            }
+            out.push((format!("crowded-stage-behind-barrier({} groups, then a {})", k, if plain { "system" } else { "batch" }), v));
+        }
+    }
     // a REJECTED registration (a second system under a name that is taken) in the middle of a sequence: the systems
     // registered after it, and later dependants of that name, are planned as if the call had never been made
     for chain in 0..=2usize {
